@@ -866,7 +866,61 @@ class ExprBuilder:
                 if cand in self.facts.by_cdef and not lib_derived(self.facts.by_cdef[cand]):
                     name = cand
                     c.resolved = cand
+        acc = self._accessor(c.resolved or name)
+        if acc is not None and len(args) == 1 and depth < MAXDEPTH - 5:
+            # `x.payment_hash()` where `fn payment_hash(&self) -> &Hash { self.invoice.payment_hash() }`: the call is
+            # the expression it returns (straight-line one-parameter accessors only)
+            return _subst_param1(acc[1], acc[0].cdef, args[0])
         return ("call", name, args, (body.cdef, bi, c.loc), c)
+
+    def _accessor(self, name):
+        """(body, return expression) if `name` is a local straight-line accessor: one parameter, no branch, at most one
+        call and that call not to a local function; None otherwise"""
+        memo = self.__dict__.setdefault("_acc", {})
+        if name in memo:
+            return memo[name]
+        memo[name] = None
+        b = self.facts.by_cdef.get(name)
+        if b is None or b.kind not in ("Fn", "AssocFn") or b.arg_count != 1 or lib_derived(b) or "src/cln_plugin/" in b.span.get("f", "") or name.startswith("<"):
+            return None
+        fi = self.facts.fns.get(name)
+        if fi and fi.get("async"):
+            return None
+        if any(b.blocks[i]["t"]["k"] in ("switch", "yield") for i in b.reachable):
+            return None
+        calls = [c for c in b.calls if c.bb in b.reachable and not c.noise and c.name not in TRANSPARENT_CALLS]
+        if len(calls) > 1 or any((c.resolved or c.name) in self.facts.by_cdef for c in calls):
+            return None
+        r = strip(self.local(b, 0, 1))
+        if not any(x[0] == "param" and x[1] == b.cdef for x in walk(r)):
+            return None
+        memo[name] = (b, r)
+        return memo[name]
+
+
+def _subst_param1(e, cdef, arg, _d=0):
+    if not isinstance(e, tuple) or not e or _d > 80:
+        return e
+    h = e[0]
+    if h == "param" and e[1] == cdef and e[2] == 1:
+        return arg
+    if h == "call":
+        return ("call", e[1], tuple(_subst_param1(a, cdef, arg, _d + 1) for a in e[2]), e[3], e[4])
+    if h == "field":
+        return ("field", e[1], e[2], e[3], _subst_param1(e[4], cdef, arg, _d + 1))
+    if h == "phi":
+        return mkphi(tuple(_subst_param1(a, cdef, arg, _d + 1) for a in e[1]))
+    if h == "agg":
+        return ("agg", e[1], e[2], tuple((f, _subst_param1(x, cdef, arg, _d + 1)) for f, x in e[3]), e[4])
+    if h == "bin":
+        return ("bin", e[1], _subst_param1(e[2], cdef, arg, _d + 1), _subst_param1(e[3], cdef, arg, _d + 1), e[4])
+    if h == "un":
+        return ("un", e[1], _subst_param1(e[2], cdef, arg, _d + 1))
+    if h == "cast":
+        return ("cast", e[1], e[2], e[3], _subst_param1(e[4], cdef, arg, _d + 1))
+    if h in ("discr", "index", "await", "try"):
+        return (h, _subst_param1(e[1], cdef, arg, _d + 1))
+    return e
 
 
 class SyntheticCall:
